@@ -13,6 +13,7 @@ import (
 	"strconv"
 	"strings"
 	"sync"
+	"syscall"
 	"time"
 )
 
@@ -227,10 +228,7 @@ func runPlansFresh(plans []*Plan, gomaxprocs int) (res []*PlanResult, died bool,
 	var eb bytes.Buffer
 	cmd.Stderr = &eb
 	done := make(chan error, 1)
-	if err := cmd.Start(); err != nil {
-		infra("start node: %v", err)
-	}
-	go func() { done <- cmd.Wait() }()
+	startChild(cmd, done, "node")
 	select {
 	case err = <-done:
 	case <-time.After(10 * time.Minute):
@@ -273,12 +271,12 @@ func tail(s string, n int) string {
 type batchSizes struct{ quick, thorough int }
 
 var sizes = map[string]batchSizes{
-	"C02": {6000, 400000},
-	"C07": {12000, 800000},
-	"C08": {1200, 40000},
-	"C09": {8000, 500000},
-	"C10": {6000, 400000},
-	"C20": {5000, 300000},
+	"C02": {6000, 1000000},
+	"C07": {12000, 2400000},
+	"C08": {1200, 60000},
+	"C09": {8000, 1000000},
+	"C10": {6000, 1000000},
+	"C20": {5000, 1000000},
 }
 
 type runOutcome struct {
@@ -340,10 +338,7 @@ func runBatchV(prop string, seed uint64, tier string, indices []int, workers int
 				var eb bytes.Buffer
 				cmd.Stderr = &eb
 				done := make(chan error, 1)
-				if err := cmd.Start(); err != nil {
-					infra("start worker: %v", err)
-				}
-				go func() { done <- cmd.Wait() }()
+				startChild(cmd, done, "worker")
 				var werr error
 				select {
 				case werr = <-done:
@@ -471,4 +466,24 @@ func checkMain(args []string) int {
 	fmt.Printf("[dst] property=%s tier=%s VERIF_SEED=%d runs=%d\n", *prop, *tier, seed, n)
 	c := &checker{prop: *prop, tier: *tier, seed: seed, n: n, t0: time.Now()}
 	return c.run()
+}
+
+// startChild starts cmd so that it cannot outlive this process: the child gets SIGKILL when the
+// thread that started it exits (Pdeathsig), and that thread is pinned until the child is done.
+func startChild(cmd *exec.Cmd, done chan<- error, what string) {
+	started := make(chan error, 1)
+	go func() {
+		runtime.LockOSThread()
+		defer runtime.UnlockOSThread()
+		cmd.SysProcAttr = &syscall.SysProcAttr{Pdeathsig: syscall.SIGKILL}
+		if err := cmd.Start(); err != nil {
+			started <- err
+			return
+		}
+		started <- nil
+		done <- cmd.Wait()
+	}()
+	if err := <-started; err != nil {
+		infra("start %s: %v", what, err)
+	}
 }
